@@ -73,9 +73,28 @@ func (l *Lifter) dateAlt(s *ast.IfStmt, put func(ast.Stmt) (string, ast.Expr, bo
 		negated = true
 		cond = unparen(u.X)
 	}
+	zeroTest := ""
 	recv, c, ok := methodCall(cond, "IsZero")
 	if !ok || len(c.Args) != 0 {
-		return Item{}, false
+		// X == time.Time{} (or != …): a test of the zero instant *and* a nil
+		// location — a zero time that carries a location is not equal to it
+		be, isB := cond.(*ast.BinaryExpr)
+		if !isB || (be.Op != token.EQL && be.Op != token.NEQ) {
+			return Item{}, false
+		}
+		x, y := unparen(be.X), unparen(be.Y)
+		if cl, isLit := x.(*ast.CompositeLit); isLit && len(cl.Elts) == 0 && Canon(cl.Type) == "time.Time" {
+			x, y = y, x
+		}
+		cl, isLit := y.(*ast.CompositeLit)
+		if !isLit || len(cl.Elts) != 0 || Canon(cl.Type) != "time.Time" {
+			return Item{}, false
+		}
+		recv = x
+		if be.Op == token.NEQ {
+			negated = !negated
+		}
+		zeroTest = "zero time recognised by == time.Time{}, which a zero time with a location is not"
 	}
 	var zeroArm, valueArm []ast.Stmt
 	if s.Else != nil {
@@ -134,6 +153,9 @@ func (l *Lifter) dateAlt(s *ast.IfStmt, put func(ast.Stmt) (string, ast.Expr, bo
 	if !std && prim == "Date" {
 		conv := strings.ReplaceAll(Canon(vb), Canon(recv), "t")
 		prim = "Date<ticks = " + conv + ">"
+	}
+	if zeroTest != "" && prim == "Date" {
+		prim = "Date<" + zeroTest + ">"
 	}
 	return Item{Kind: KScalar, Prim: prim, Operand: l.op(recv), Pos: s.Pos()}, true
 }
